@@ -20,8 +20,8 @@ use std::{
 };
 use syn::{
     ext::IdentExt, parse::ParseBuffer, punctuated::Punctuated, visit::Visit, Attribute, Expr,
-    ExprLit, Fields, GenericParam, ItemConst, ItemEnum, ItemStruct, ItemType, Lit, LitStr, Meta,
-    MetaList, MetaNameValue, Token,
+    ExprGroup, ExprLit, ExprParen, ExprUnary, Fields, GenericParam, ItemConst, ItemEnum,
+    ItemStruct, ItemType, Lit, LitStr, Meta, MetaList, MetaNameValue, Token, UnOp,
 };
 use thiserror::Error;
 
@@ -549,34 +549,30 @@ pub(crate) fn parse_const(c: &ItemConst) -> Result<RustItem, ParseError> {
 }
 
 fn parse_const_expr(e: &Expr) -> Result<RustConstExpr, ParseError> {
-    struct ExprLitVisitor(pub Option<Result<RustConstExpr, ParseError>>);
-    impl Visit<'_> for ExprLitVisitor {
-        fn visit_expr_lit(&mut self, el: &ExprLit) {
-            if self.0.is_some() {
-                // should we throw an error instead of silently ignoring a second literal?
-                // or would this create false positives?
-                return;
-            }
-            let check_literal_type = || {
-                Ok(match &el.lit {
-                    Lit::Int(lit_int) => {
-                        let int: i128 = lit_int
-                            .base10_parse()
-                            .map_err(|_| ParseError::RustConstTypeInvalid)?;
-                        RustConstExpr::Int(int)
-                    }
-                    _ => return Err(ParseError::RustConstTypeInvalid),
-                })
-            };
-
-            self.0.replace(check_literal_type());
+    match e {
+        Expr::Lit(ExprLit {
+            lit: Lit::Int(lit_int),
+            ..
+        }) => lit_int
+            .base10_parse()
+            .map(RustConstExpr::Int)
+            .map_err(|_| ParseError::RustConstTypeInvalid),
+        // A parenthesized literal is still that literal.
+        Expr::Paren(ExprParen { expr, .. }) | Expr::Group(ExprGroup { expr, .. }) => {
+            parse_const_expr(expr)
         }
+        // The sign of a negative number is part of its value.
+        Expr::Unary(ExprUnary {
+            op: UnOp::Neg(_),
+            expr,
+            ..
+        }) => match parse_const_expr(expr)? {
+            RustConstExpr::Int(int) => Ok(RustConstExpr::Int(-int)),
+        },
+        // Anything else would have to be evaluated; taking some literal out of
+        // it would generate a wrong value.
+        _ => Err(ParseError::RustConstTypeInvalid),
     }
-    let mut expr_visitor = ExprLitVisitor(None);
-    syn::visit::visit_expr(&mut expr_visitor, e);
-    expr_visitor
-        .0
-        .unwrap_or(Err(ParseError::RustConstTypeInvalid))
 }
 
 // Helpers
